@@ -108,7 +108,7 @@ class Analyzer(object):
                     for r in roots:
                         for x in ast.walk(r):
                             idx.setdefault(id(x), n)
-            self.flows[q] = (cfg, Facts(cfg), ReachingDefs(cfg, params=f.params), idx)
+            self.flows[q] = (cfg, Facts(cfg, params=f.params), ReachingDefs(cfg, params=f.params), idx)
         return self.flows[q]
 
     def node_of(self, f, astnode):
